@@ -409,8 +409,13 @@ def run(ctx):
                     expanded.append((vw, e))
             if not expanded:
                 res.unknown("V-STEPUP", fs, "fdr = k[ps < k][-1]", "last-passing-rank", "the definition of the threshold was not recognised", loc(s.fi, flags[0]))
+            # `k[...] if <some rank passes> else 0`: the non-constant arm
+            flat = []
             for vw, e in expanded:
-                ei = vw.inline(e)
+                ei0 = vw.inline(e)
+                arms = [ei0.body, ei0.orelse] if isinstance(ei0, ast.IfExp) else [ei0]
+                flat += [(vw, e, a_) for a_ in arms if not isinstance(a_, ast.Constant)]
+            for vw, e, ei in flat:
                 st_ = "unknown"
                 why_ = "the threshold is not a selection from the rank levels"
                 if isinstance(ei, ast.Subscript):
